@@ -1,0 +1,8 @@
+//go:build !verif
+// +build !verif
+
+package rogger
+
+// verifYield is a verification hook point between the two selects of flushLog; without the build tag
+// verif it is an empty function that the compiler inlines away.
+func verifYield() {}
